@@ -109,7 +109,7 @@ OracleInv ==
 FastOracleInv ==
   (Is("floyd") /\ st.pc = "for" /\ st.k = 1) =>
     LET n == NI
-        D == Dist(n, inp)  Out == OutNb(n, inp)  In == InNb(n, inp)
+        D == Dist(n, inp)  Out == DOutNb(n, inp)  In == DInNb(n, inp)
         HL == HopLen(n, inp)  HD == Dist(n, HL)  HWT == WalkTab(n, HL)
         WT == WalkTab(n, inp)
         pos == PosLen(n, inp)
